@@ -7,7 +7,7 @@
      0x0D and codes >= 0x7F only with l = 0; control codes never;
      identical character with equal or worse level: ignored;  otherwise the cell becomes (conv byte, l).
    write2 applies cell_after to two consecutive cells with the two bytes of a block. *)
-Require Import ObsRun Lemmas_TextProps Lemmas_ObsText Lemmas_Leaf.
+Require Import ObsRun Lemmas_TextProps Lemmas_ObsText Lemmas_Leaf_C06.
 Local Open Scope Z_scope.
 
 (* type 0 (A and B): block D, PS thresholds / progressive flag, cells 2s and 2s+1 *)
